@@ -112,6 +112,7 @@ type FuncContract struct {
 	RetGhost   []GhostUpdate
 	EntryGhost []GhostUpdate
 	Pure       bool
+	Holds      []string
 	MayPanic   bool
 	Line       int
 	File       string
@@ -185,7 +186,7 @@ func parseContractFile(path, pkg string) (*ContractFile, error) {
 	// join continuation lines: a line that does not start with a keyword continues the previous one
 	kw := map[string]bool{"func": true, "requires": true, "ensures": true, "assigns": true, "ghost": true, "ghostparam": true,
 		"loop": true, "call": true, "trusted": true, "pred": true, "lemma": true, "pure": true, "maypanic": true,
-		"guarded_by": true, "return": true, "note": true, "entry": true, "upred": true}
+		"guarded_by": true, "return": true, "note": true, "entry": true, "upred": true, "holds": true}
 	var joined []rawLine
 	for _, r := range raws {
 		first := r.text
@@ -251,6 +252,11 @@ func parseContractFile(path, pkg string) (*ContractFile, error) {
 					cur.Assigns = append(cur.Assigns, a)
 				}
 			}
+		case "holds":
+			if cur == nil {
+				return nil, fail(fmt.Errorf("clause outside func"))
+			}
+			cur.Holds = append(cur.Holds, strings.TrimSpace(rest))
 		case "pure":
 			cur.Pure = true
 			cur.HasAssign = true
@@ -426,7 +432,7 @@ func parseContractFile(path, pkg string) (*ContractFile, error) {
 				return nil, fail(fmt.Errorf("guarded_by needs ':'"))
 			}
 			head := strings.TrimSpace(rest[:i])
-			d := strings.LastIndex(head, ".")
+			d := strings.Index(head, ".")
 			if d < 0 {
 				return nil, fail(fmt.Errorf("guarded_by needs Struct.mutex"))
 			}
